@@ -33,6 +33,7 @@ type c12Lane struct {
 	Mode   string `json:"mode"` // online | offline | blocked
 	WaitMs int    `json:"wait_ms"`
 	QoS    byte   `json:"qos"`
+	IdleMs int    `json:"idle_ms"` // online mode: the subscriber has been idle this long when the message arrives
 }
 
 type c12Scen struct {
@@ -49,6 +50,9 @@ func genC12(t *rapid.T) c12Scen {
 			QoS: byte(rapid.IntRange(1, 2).Draw(t, "qos"))}
 		if l.Pub != "v3" {
 			l.E = rapid.SampledFrom([]int{0, 1, 2, 3, 5, 100}).Draw(t, "E")
+		}
+		if l.Mode == "online" {
+			l.IdleMs = rapid.SampledFrom([]int{0, 1200, 2100}).Draw(t, "idle")
 		}
 		if l.Mode == "blocked" && l.SubV != 5 {
 			l.SubV = 5 // blocking uses Receive Maximum 1
@@ -196,6 +200,10 @@ func runC12(s c12Scen, c *ev.Case) *ev.Violation {
 			}
 			pubc = pc
 			defer pubc.Kill()
+		}
+		if l.IdleMs > 0 {
+			time.Sleep(time.Duration(l.IdleMs) * time.Millisecond)
+			o.labels = append(o.labels, "idle_subscriber")
 		}
 		t0 := time.Now()
 		if l.Pub == "api" {
